@@ -189,7 +189,10 @@ class TreeGen:
 
     def scale(self, safe=False):
         # (a non-positive scale below a Loss clears the Loss's has_prox: its prox then raises)
-        if self.nonpos_budget and self.rng.random() < 0.5:
+        # `safe`: positive only.  A non-positive factor folded into a *loss* (`c * L`) is generated (boundary stream):
+        # `build` tags such trees "loss-nonpos" - their value is compared, their flags / prox are the known finding
+        # `loss-nonpositive-scale` (the Loss flag does not look at the scale).
+        if self.nonpos_budget and not safe and self.rng.random() < 0.5:
             self.nonpos_budget -= 1
             return float(self.rng.choice([0.0, -0.5, -1.0, -2.0]))
         return pos_dyadic(self.rng)
@@ -222,7 +225,7 @@ class TreeGen:
         if safe:
             choices = ["scaled", "mul", "leaf"] + (["sep"] if block else [])
         elif block:
-            choices = ["sep", "sep", "scaled", "mul", "sum", "loss", "leaf", "div"]
+            choices = ["sep", "sep", "scaled", "mul", "sum", "loss", "leaf", "div", "sql2"]
         else:
             choices = ["scaled", "mul", "sum", "loss", "loss", "sql2", "leaf", "div", "lossnone"]
         c = choices[int(rng.integers(len(choices)))]
@@ -243,8 +246,8 @@ class TreeGen:
             return {"k": "setscale", "c": f2b(pos_dyadic(rng)), "f": inner}
         if c == "mul":
             child = self.gen(depth - 1, shape, safe)
-            # `c * loss` folds c into the loss's own scale; non-positive loss scales are not generated (design/C08.md)
-            return {"k": "mul", "c": f2b(self.scale(safe or is_lossish(child))), "side": int(rng.integers(2)), "f": child}
+            # `c * loss` folds c into the loss's own scale (a non-positive one is tagged "loss-nonpos" by `build`)
+            return {"k": "mul", "c": f2b(self.scale(safe)), "side": int(rng.integers(2)), "f": child}
         if c == "div":
             # `/` exists for losses only; mostly divide a loss, sometimes something else (TypeError expected)
             if rng.random() < 0.75 and not safe:
@@ -266,16 +269,36 @@ class TreeGen:
             y = self.measurement(shape)
             f = self.gen(depth - 1, shape, safe or not self.allow_lossdefect)
             A = None
-            if (not block) and (not self.cplx) and len(shape) == 1 and rng.random() < 0.3:
-                A = {"id": self.opaque_op(shape[0]), "linear": bool(rng.integers(2))}
+            Acls = None
+            if (not block) and (not self.cplx) and len(shape) == 1 and rng.random() < 0.4:
+                # the generic prox exists for `isinstance(A, linop.Identity)` only: ScaledIdentity / Diagonal (super-classes
+                # of Identity), MatrixOperator and non-linear operators are opaque operators for the model
+                Acls = ["mat", "nonlin", "sid", "diag"][int(rng.integers(4))]
+                if Acls in ("sid", "diag"):
+                    n = shape[0]
+                    d = common.dyadic(rng, (n,), bits=1, scale=2.0) if Acls == "diag" else np.full(n, float(rng.choice([0.5, 1.0, 2.0, -1.0])))
+                    self.ops.append([fs2b(r) for r in np.diag(d)])
+                    A = {"id": len(self.ops) - 1, "linear": True}
+                else:
+                    A = {"id": self.opaque_op(shape[0]), "linear": Acls == "mat"}
+            elif rng.random() < 0.25:
+                Acls = "identobj"  # an explicit linop.Identity instance: the model's Identity (A = none)
+            self.tags.append("loss:A=" + (Acls or "default"))
             return {"k": "loss", "y": y, "A": None if A is None else A["id"], "Alinear": None if A is None else A["linear"],
-                    "f": f, "scale": f2b(pos_dyadic(rng))}
+                    "Acls": Acls, "f": f, "scale": f2b(pos_dyadic(rng))}
         if c == "sql2":
             return self.sql2(shape)
         raise common.Infra(c)
 
     def sql2(self, shape):
         rng = self.rng
+        if isinstance(shape, list):
+            # block argument: default Identity forward operator, block weights (flat list, block by block)
+            w = None
+            if rng.random() < 0.5:
+                w = fs2b(rng.integers(0, 5, size=int(sum(np.prod(s) for s in shape))).astype(np.float64) / 2)
+            self.tags.append("sql2:ident:block")
+            return {"k": "sql2", "y": self.measurement(shape), "A": {"k": "ident"}, "w": w, "scale": f2b(pos_dyadic(rng))}
         n = int(np.prod(shape))
         w = None
         if rng.random() < 0.5:
@@ -309,16 +332,21 @@ def is_lossish(t):
 
 class Built:
     def __init__(self):
-        self.patterns = set()  # "loss-flags", "nonpos-scale"
+        self.patterns = set()  # "loss-flags", "nonpos-scale", "loss-nonpos"
         self.leaf_objs = {}
+        self.alias = []  # `c * L` / `L / c` that modified `L` or returned it
 
 
-def _op_obj(scico, case, oid, linear):
+def _op_obj(scico, case, oid, linear, cls=None):
     from scico import linop, operator
     import scico.numpy as snp
 
     M = np.asarray([b2fs(r) for r in case["ops"][oid]], dtype=np.float64)
     Mj = snp.array(M)
+    if cls == "sid":
+        return linop.ScaledIdentity(float(M[0, 0]), (M.shape[1],), input_dtype=np.float64)
+    if cls == "diag":
+        return linop.Diagonal(snp.array(np.diag(M).copy()), input_dtype=np.float64)
     if linear:
         return linop.MatrixOperator(Mj, input_cols=0)
     return operator.Operator(input_shape=(M.shape[1],), output_shape=(M.shape[0],), eval_fn=lambda x: Mj @ x,
@@ -360,6 +388,18 @@ def build(scico, case, t=None, shape=None, info=None):
         else:
             if k != "div" and not c > 0:
                 info.patterns.add("nonpos-scale")
+                if k == "mul" and hasattr(o, "set_scale"):
+                    info.patterns.add("loss-nonpos")
+            s0 = getattr(o, "scale", None) if hasattr(o, "set_scale") else None
+            probe = None
+            if s0 is not None and k in ("mul", "div") and bool(getattr(o, "has_eval", False)):
+                # value of the operand at a fixed probe point, before `c * L` / `L / c` is formed
+                xpj = random_arg_json(np.random.default_rng(11), shape, cplx)
+                xp = arg_to_scico(xpj, shape, cplx)
+                try:
+                    probe = float(o(xp))
+                except Exception:  # noqa: BLE001
+                    probe = None
             if k == "scaled":
                 res = F.ScaledFunctional(o, c)
             elif k == "mul":
@@ -369,6 +409,19 @@ def build(scico, case, t=None, shape=None, info=None):
                     res = o / c
                 except TypeError:
                     res = TypeError
+            # `c * L` / `L / c` must return a new loss and leave `L` as it was
+            if s0 is not None and res is not TypeError and k in ("mul", "div"):
+                after = None
+                if probe is not None:
+                    try:
+                        after = float(o(xp))
+                    except Exception:  # noqa: BLE001
+                        after = None
+                moved = probe is not None and (after is None or not common.close(probe, after, k=64, rtol=1e-9))
+                if res is o or o.scale != s0 or moved:
+                    info.alias.append({"node": k, "c": c, "scale_before": float(s0), "scale_after": float(o.scale),
+                                       "same_object": res is o, "x": xpj if probe is not None else None,
+                                       "L(x) before": probe, "L(x) after": after})
     elif k == "sum":
         a, b = sub(t["f"]), sub(t["g"])
         res = TypeError if (a is TypeError or b is TypeError) else a + b
@@ -386,7 +439,11 @@ def build(scico, case, t=None, shape=None, info=None):
             if o is TypeError:
                 res = TypeError
             else:
-                A = None if t.get("A") is None else _op_obj(scico, case, t["A"], t.get("Alinear", True))
+                A = None if t.get("A") is None else _op_obj(scico, case, t["A"], t.get("Alinear", True), t.get("Acls"))
+                if t.get("Acls") == "identobj":
+                    from scico import linop
+
+                    A = linop.Identity(input_shape=y.shape, input_dtype=y.dtype)
                 if (not o.has_eval) or (A is None and not o.has_prox):
                     info.patterns.add("loss-flags")
                 res = loss.Loss(y=y, A=A, f=o, scale=s)
@@ -397,7 +454,14 @@ def build(scico, case, t=None, shape=None, info=None):
         y = arg_to_scico(t["y"], shape, cplx)
         s = b2f(t["scale"])
         W = None
-        if t.get("w") is not None:
+        if t.get("w") is not None and isinstance(shape, list):
+            wf, pos, wb = np.asarray(b2fs(t["w"])), 0, []
+            for sh in shape:
+                m_ = int(np.prod(sh))
+                wb.append(snp.array(wf[pos : pos + m_].reshape(sh)))
+                pos += m_
+            W = linop.Diagonal(snp.blockarray(wb), input_dtype=np.float64)
+        elif t.get("w") is not None:
             W = linop.Diagonal(snp.array(np.asarray(b2fs(t["w"])).reshape(shape)), input_dtype=np.float64)
         Ak = t["A"]["k"]
         if Ak == "ident":
@@ -495,6 +559,16 @@ def np_eval(case, blocks, t=None, shape=None):
             M = np.asarray([b2fs(r) for r in case["ops"][t["A"]]])
             blocks = [M @ blocks[0]]
         return b2f(t["scale"]) * np_eval(case, [b - y for b, y in zip(blocks, ys)], t["f"], shape)
+    if k == "sql2" and isinstance(shape, list):
+        ys = _json_blocks(t["y"], shape, cplx)
+        wf = None if t.get("w") is None else np.asarray(b2fs(t["w"]))
+        tot, pos = 0.0, 0
+        for yb, xb in zip(ys, blocks):
+            m_ = int(np.prod(yb.shape))
+            wv = 1.0 if wf is None else wf[pos : pos + m_].reshape(yb.shape)
+            pos += m_
+            tot += float(np.sum(wv * np.abs(yb - xb) ** 2))
+        return float(b2f(t["scale"]) * tot)
     if k == "sql2":
         y = _json_blocks(t["y"], shape, cplx)[0]
         x = blocks[0]
